@@ -138,6 +138,10 @@ def import_cases(rng, tier):
     for p in progs:
         yield Case(program=p, fs=fs, tag='import')
         yield Case(program=render(wrap_try(raw("(" + p + ")"))), fs=fs, tag='import-try', monitor='c04_caught')
+        # the same import after other modules were loaded (non-empty module registry: by literal, by path, nested)
+        for ok in ("ㄱ ㅂㅎㄴ", render(bi('ㅂ', str_lit("마/바.pbhhg"))), "ㅁ ㅂ ㅂㅎㄷ"):
+            yield Case(program=f"({ok}) ({p}) ㅁㄹㅎㄷ", fs=fs, tag='import-after')
+            yield Case(program=f"({ok}) {render(wrap_try(raw('(' + p + ')')))} ㅁㄹㅎㄷ", fs=fs, tag='import-after-try')
 
 
 def relevant(rec, case):
@@ -156,7 +160,7 @@ SPEC = {
             'malformed strings, invalid UTF-8, nested / failing lists, dicts, closures, pipes, codecs, exceptions, I/O '
             'actions); every kind of value as callee; numeric pairs for the binary operators; numeric strings × bases; '
             'file operations in every handle state (wrong mode, closed, bad offset / count / whence, missing / directory / '
-            'nested paths) with and without ㄱㄹ handler; failing imports; random word sequences. Outcome of the '
+            'nested paths) with and without ㄱㄹ handler; failing imports, alone and after other modules were loaded; random word sequences. Outcome of the '
             'implementation must be value / language exception (with location) / stack-limit report — any other '
             'exception escaping main.main is a failing input — and equal the model\'s outcome. Non-trivial: all cases',
     'trusted': [],
